@@ -74,3 +74,12 @@ HARNESSES.append(
          undefined_ok="*", cbmc_flags=["--object-bits", "10"],
          unwind=12, unwindset={"vf_bytes:/./": 60, "checkAsnOidDatabase:/while \\(1\\)/": 8, "memcmp.0": 26, "getAsnOID:/./": 60, "psX509ParseCRL:/while \\(glen > 0\\)/": 12},
          cases=[dict(name="size40", defs={"VF_SIZE": 40})]))
+
+HARNESSES.append(
+    dict(name="x509_prims", src="x509_prims.c", checks=M, units=["crypto/keyformat/asn1.c", "core/src/psbuf.c"],
+         functions=["psX509GetSignature", "getSerialNum", "getExplicitVersion", "getTimeValidity", "getImplicitBitString"],
+         sources=["crypto/keyformat/x509.c", "crypto/keyformat/asn1.c"],
+         assumptions=["x509_prims: input is an object of exactly VF_SIZE bytes (10, 24), contents arbitrary, len argument = VF_SIZE; heap = static-pool model (allocation succeeds, blocks <= 48 bytes)"],
+         undefined_ok="*", cbmc_flags=["--object-bits", "10"],
+         unwind=12, unwindset={"vf_bytes:/./": 60, "memmove:/for \\(i = 0/": 50, "malloc:/for \\(j = /": 9, "vf_heap_slot_of:/for \\(j = /": 9},
+         cases=[dict(name="op%d_size%d" % (o, n), defs={"VF_OP": o, "VF_SIZE": n}) for o in range(5) for n in ((24,) if o in (0, 3) else (10,))]))
